@@ -311,3 +311,65 @@ def _mkw(tname, targs, mod, cls):
 
 for _w in WRAPPERS:
     _mkw(*_w)
+
+
+# ---- serialisers depend on the CURRENT field values only (no state carried between calls) ---------------------------------------
+
+def _mut_cases():
+    out = []
+    for m in range(32):
+        bits = tuple((m >> i) & 1 for i in range(5))
+        out.append({'init': m, 'shape': ''.join(map(str, bits))})
+    return out
+
+
+@obligation('C15.reserialize', 'C15', cases=_mut_cases(),
+            fuc=[AC + '.StateInit.serialize', AC + '.TickTock.serialize', TR + '.MessageAny.serialize'],
+            descr='history independence of the serialisers: a StateInit object (every field combination) is serialised, then ALL its fields '
+                  'are overwritten - top-level fields by assignment, the nested TickTock IN PLACE - with the independent symbolic values of a '
+                  'second state-init of the same shape, and serialised again, alone and inside a message: the second result is the schema '
+                  'encoding of the NEW values (a serialiser that remembers an earlier result would return the old one)')
+def reserialize(w, init, shape):
+    M = importlib.import_module(TR)
+    own = _init_own(tuple((init >> i) & 1 for i in range(5)))
+    o1, cur1, v1 = _lib_obj(w, 'StateInit', (), AC, 'StateInit', own, 0, 0)
+    pol = T.Policy(own=dict(own), prof=0, rot=0)
+    cur2, v2, _g = T.generate(w, 'StateInit', (), pol, cell_factory=lambda p: TC.leaf_cell(w, 'second.c:' + p), prefix='second.')
+    o2 = importlib.import_module(AC).StateInit.deserialize(TC.build(w, cur2.node()).begin_parse())
+    if o1 is None:
+        return
+    k, c1 = call(o1.serialize)
+    w.claim('first serialisation is the schema encoding', k == 'ok' and matches(w, c1, cur1.node()))
+    info, icur, iv = _lib_obj(w, 'CommonMsgInfo', (), TR, 'CommonMsgInfo', {'CommonMsgInfo!CommonMsgInfo': 1}, 0, 0, top_bit=True)
+    body = TC.leaf_cell(w, 'body')
+    msg = M.MessageAny(info=info, init=o1, body=body)
+    call(msg.serialize)
+    # step 1: ONLY the nested TickTock changes, in place (no assignment to a field of the state-init itself)
+    if o1.special is not None and o2.special is not None:
+        o1.special.tick, o1.special.tock = o2.special.tick, o2.special.tock
+        ka, ca = call(o1.serialize)
+        w.claim('after an in-place change of the nested TickTock the serialisation carries the new tick/tock', ka == 'ok')
+        if ka == 'ok':
+            mixed = T.Rec(v1.type, v1.cons)
+            mixed.f = dict(v1.f)
+            mixed.f['special'] = v2.f['special']
+            kb, ob = call(importlib.import_module(AC).StateInit.deserialize, ca.begin_parse())
+            if kb == 'ok':
+                cx = TC.Ctx(w)
+                TC.agree(cx, ob, mixed, 'state-init after the in-place change')
+                cx.flush()
+            else:
+                w.claim('re-serialised state-init parses', False)
+    # step 2: everything else by assignment
+    o1.split_depth, o1.code, o1.data, o1.library = o2.split_depth, o2.code, o2.data, o2.library
+    k2, c2 = call(o1.serialize)
+    w.claim('after overwriting every field the serialisation is the schema encoding of the NEW values', k2 == 'ok' and matches(w, c2, cur2.node()))
+    k3, mc = call(msg.serialize)
+    w.claim('the message serialises', k3 == 'ok')
+    if k3 == 'ok':
+        k4, back = call(M.MessageAny.deserialize, mc.begin_parse())
+        w.claim('the message parses back', k4 == 'ok')
+        if k4 == 'ok':
+            cx = TC.Ctx(w)
+            TC.agree(cx, back.init, v2, 'message.init (new values)')
+            cx.flush()
